@@ -1,6 +1,7 @@
 import EaselModel.Sqio.Geometry
 import EaselModel.Sqio.Tracker
 import EaselModel.Sqio.AfetchMain
+import EaselModel.Sqio.EchoSpec
 /-! # C07 — fetching by key, number or coordinates returns what a sequential scan returns
 
 Property theorems only (proofs are glue on `Sqio/Geometry.lean`, `Sqio/Tracker.lean`).
@@ -13,7 +14,9 @@ and skipping `start − actual_start` residues lands on residue `start` in each 
 Proved here: (2) for every layout satisfying the geometry (`lands_on_start_line`, `lands_on_start_residue`), (4) on the model, and
 the part of (1) that the code really guarantees (`bplrpl_sound_partial`: lines followed by another terminated line). The bracketed
 half of (1) is FALSE for the code (`bplrpl_unsound_*`, known finding `C07:seebuf:line-geometry-accepts-long-last-line`);
-(3) is tied by the differential run and the fetch = slice-of-scan monitor.
+(3) whole-record fetch through `sqascii_Echo` (what `esl-sfetch` prints for a key): `echo_eq_scan_bytes` /
+`echo_of_scanned_record` — the bytes `roff..eoff` of the record the sequential scan found, for every block size; the subsequence
+clause of (3) is tied by the differential run and the fetch = slice-of-scan monitor.
 (5) esl-afetch: `afetch_*` below (model `Sqio/AfetchModel.lean`, over the C06 index model and a Stockholm database as bytes). -/
 namespace EaselModel.Props.C07
 open EaselModel.Sqio EaselModel.Sqio.Geometry EaselModel.Sqio.Tracker
@@ -111,6 +114,48 @@ example : (run {} ([Ev.hdr] ++ [Ev.eol 5 4, Ev.eol 5 4] ++ [Ev.eol 3 2])).rpl = 
 /-- non-vacuity of `lands_on_start_line`: two complete lines `AC␣\n`-like (b = 3, r = 2), start = 5 -/
 example : FullLines (fun c : Nat => c != 0) 3 2 [[1, 1, 0], [1, 1, 0]] ∧ [[1, 1, 0], [1, 1, 0]].length = (5 - 1) / 2 := by
   refine ⟨⟨?_, ?_⟩, by decide⟩ <;> (intro ln h; simp at h; rcases h with rfl | rfl <;> decide)
+
+/-! ## (3) whole-record fetch: `sqascii_Echo` regurgitates exactly the bytes `roff..eoff`, for every block size -/
+section echo
+open EaselModel.Sqio.EchoSpec
+
+/-- **`sqascii_Echo` = the bytes `roff..eoff` of the file, for EVERY read-block size `B ≥ 1`**: from any block-mode handle on the file
+    (wherever its cursor stands), with `0 ≤ roff ≤ eoff < size`, `Echo` returns `eslOK` and exactly `file[roff..eoff]` — buffer by buffer
+    through `loadbuf`, last buffer cut at `eoff` — and leaves the handle positioned at `roff` with line number and `L` restored. -/
+theorem echo_eq_scan_bytes (a : Ascii) (sq : Sq) (hb : a.linebased = false) (hr : a.recording ≠ 1) (hB : 1 ≤ a.B)
+    (h0 : 0 ≤ sq.roff) (h1 : sq.roff ≤ sq.eoff) (h2 : sq.eoff < (a.file.size : Int)) :
+    (echo a sq).2.1 = .ok ∧
+    (echo a sq).2.2 = a.file.extract sq.roff.toNat (sq.eoff.toNat + 1) ∧
+    Refine.WF (echo a sq).1 ∧ Refine.pos (echo a sq).1 = sq.roff ∧ (echo a sq).1.bpos = 0 ∧ 0 < (echo a sq).1.nc ∧
+    (echo a sq).1.file = a.file ∧ (echo a sq).1.B = a.B ∧
+    (echo a sq).1.linenumber = a.linenumber ∧ (echo a sq).1.L = a.L :=
+  EchoSpec.echo_eq_scan_bytes a sq hb hr hB h0 h1 h2
+
+/-- offsets never set (`-1`): `eslEINVAL`, nothing written -/
+theorem echo_unset_offsets (a : Ascii) (sq : Sq) (h : sq.roff = -1 ∨ sq.eoff = -1) :
+    (echo a sq).2.1 = .einval ∧ (echo a sq).2.2 = #[] := EchoSpec.echo_unset_offsets a sq h
+
+/-- **FETCH (whole record) = SCAN**: every record `s` that the sequential scan of a FASTA file yields (`parseFasta`, which by
+    `C04.read_all_eq_parseFasta` is what `sqascii_Read` returns for every block size) has `0 ≤ roff ≤ eoff < size`, and `Echo` of it —
+    through a handle with ANY block size — is exactly the byte range of that record in the file. -/
+theorem echo_of_scanned_record (bytes : Bytes) (abc : Nat) (s : Sq) (hs : s ∈ (ParseFasta.parseFasta abc bytes).1)
+    (a : Ascii) (hf : a.file = bytes) (hb : a.linebased = false) (hr : a.recording ≠ 1) (hB : 1 ≤ a.B) :
+    (0 ≤ s.roff ∧ s.roff ≤ s.eoff ∧ s.eoff < (bytes.size : Int)) ∧
+    (echo a s).2.1 = .ok ∧ (echo a s).2.2 = bytes.extract s.roff.toNat (s.eoff.toNat + 1) :=
+  ⟨EchoSpec.scanned_record_offsets bytes abc s hs, EchoSpec.echo_of_scanned_record bytes abc s hs a hf hb hr hB⟩
+
+/-- the same for a record read with block size `B₁` and echoed with any other block size -/
+theorem echo_of_read_record (bytes : Bytes) (abc B1 : Nat) (hB1 : 1 ≤ B1) (habc : abc ∈ [0, 1, 2, 3]) (s : Sq)
+    (hs : s ∈ (ParseFasta.readAllM (bytes.size + 2) (ParseFasta.openFasta bytes B1 abc) (freshSq abc)).1)
+    (a : Ascii) (hf : a.file = bytes) (hb : a.linebased = false) (hr : a.recording ≠ 1) (hB : 1 ≤ a.B) :
+    (echo a s).2.1 = .ok ∧ (echo a s).2.2 = bytes.extract s.roff.toNat (s.eoff.toNat + 1) :=
+  EchoSpec.echo_of_read_record bytes abc B1 hB1 habc s hs a hf hb hr hB
+
+/-- non-vacuity: `>a\nAC\n>b\nG\n` with B = 2: the second record is bytes 6..10 -/
+example : (echo { file := demoFile, B := 2 } { roff := 6, eoff := 10 }).2 = (.ok, #[62, 98, 10, 71, 10]) := by decide +kernel
+example : (ParseFasta.parseFasta 0 demoFile).1.map (fun s => (s.roff, s.eoff)) = [(0, 5), (6, 10)] := by decide +kernel
+
+end echo
 
 /-! ## (5) esl-afetch: fetching a named alignment from a multi-alignment Stockholm file
 
